@@ -17,7 +17,7 @@ use std::hash::{Hash, Hasher};
 pub fn meta() -> Meta {
     Meta {
         rule: "parser-accepted inputs whose labels and character-strings are drawn from a hostile byte distribution (invalid UTF-8 of every class, NUL, dots, \
-backslashes, empty, maximal) in every name- and string-bearing field of every type, plus accepted C01 corpus/havoc cases; every public observer is applied to \
+backslashes, empty, maximal) in every name- and string-bearing field of every type, every string of up to 4 (quick) / 5 (thorough) bytes over {k = \" \\ ; space NUL C3 A9 FF} as the strings of TXT and HINFO records, plus accepted C01 corpus/havoc cases; every public observer is applied to \
 every part under the panic recorder: {:?}/{:#?}/{} formatting of Packet, Question, ResourceRecord, RData, Name, Label, CharacterString; clone; into_owned; \
 Hash; ==; TXT::attributes / long_attributes / String::try_from; String::try_from(CharacterString); match_qtype/match_qclass of every record against every \
 question; is_subdomain_of / without / is_link_local / get_labels / iter / len on name pairs. non-trivial = accepted input containing at least one non-UTF-8 \
@@ -292,6 +292,44 @@ pub fn run(ctx: &mut Ctx) {
         if !observe_all(ctx, "hostile", idx, &b) {
             ctx.count("hostile_generated_but_rejected");
         }
+    }
+    // bounded-exhaustive: every short string over an alphabet of the bytes that text-handling code treats specially, as the
+    // only string of a TXT record, as one of two, and as both strings of a HINFO record
+    if ctx.family_active("txt-small") {
+        const ALPHA: [u8; 10] = [b'k', b'=', b'"', b'\\', b';', b' ', 0x00, 0xC3, 0xA9, 0xFF];
+        let lmax = if ctx.slow_tool { 1 } else { tier.pick(4usize, 5usize) };
+        let mut base = 0u64;
+        for l in 0..=lmax {
+            let total = 10u64.pow(l as u32);
+            for k in 0..total {
+                let idx = base + k;
+                if !ctx.take("txt-small", idx) {
+                    continue;
+                }
+                let s1: Vec<u8> = crate::gen::digits(k, 10, l).into_iter().map(|d| ALPHA[d]).collect();
+                // second string: the reverse of the first with its first byte dropped (deterministic, also short)
+                let s2: Vec<u8> = s1.iter().rev().skip(1).copied().collect();
+                let mut b = vec![(idx >> 8) as u8, idx as u8, 0x84, 0, 0, 0, 0, 3, 0, 0, 0, 0];
+                let owner = [1u8, b't', 0];
+                let mut rr = |rtype: u16, rd: &[u8]| {
+                    b.extend_from_slice(&owner);
+                    b.extend_from_slice(&rtype.to_be_bytes());
+                    b.extend_from_slice(&[0, 1, 0, 0, 0, 9]);
+                    b.extend_from_slice(&(rd.len() as u16).to_be_bytes());
+                    b.extend_from_slice(rd);
+                };
+                let cs = |s: &[u8]| { let mut v = vec![s.len() as u8]; v.extend_from_slice(s); v };
+                rr(16, &cs(&s1));
+                rr(16, &[cs(&s2), cs(&s1)].concat());
+                rr(13, &[cs(&s1), cs(&s2)].concat());
+                ctx.add("short_special_strings", 1);
+                if !observe_all(ctx, "txt-small", idx, &b) {
+                    ctx.count("txt_small_generated_but_rejected");
+                }
+            }
+            base += total;
+        }
+        ctx.sample("txt-small", || json!({"alphabet": "k = \" \\ ; space NUL C3 A9 FF", "max_len": lmax}));
     }
     let per_type = if ctx.slow_tool { 1 } else { tier.pick(10u64, 100u64) };
     for ci in 0..42 * per_type {
